@@ -19,6 +19,7 @@ Desc(nt)   == Path(TRUE, <<DosNode, Step("child", nt, <<>>)>>)            \* //n
 DescP(nt, preds) == Path(TRUE, <<DosNode, Step("child", nt, preds)>>)   \* //nt[..]
 
 N(i) == NumLit(NumInt(i))
+Dec(n, k) == NumLit(Fin(FALSE, n, k))      \* n / 2^k
 
 PosFn  == Call("position", <<>>)
 LastFn == Call("last", <<>>)
@@ -138,6 +139,8 @@ PoolC02paren2(paths, A) == {Filter(pa, <<p, q>>, <<>>) : pa \in paths, p \in A, 
 (***************************************************************************)
 PosAtoms(maxN) ==
     {N(n) : n \in 1 .. maxN}
+    \* numbers that are no position: [x] is position() = x, false for every node
+    \cup {N(0), Neg(N(1)), Dec(3, 1), Dec(5, 1), Dec(1, 1), Bin("-", LastFn, Dec(1, 1)), Bin("div", LastFn, N(2)), Bin("div", N(1), N(0))}
     \cup {Bin(op, PosFn, N(n)) : op \in CmpOps, n \in 1 .. maxN}
     \cup {Bin(op, PosFn, LastFn) : op \in CmpOps}
     \cup {LastFn}
@@ -189,7 +192,6 @@ PoolC03paren(paths, maxN) == {Filter(pa, <<N(n)>>, <<>>) : pa \in paths, n \in 1
 (***************************************************************************)
 (* C07: comparisons and boolean operators, claimed type pairs only         *)
 (***************************************************************************)
-Dec(n, k) == NumLit(Fin(FALSE, n, k))
 NaNExpr == Bin("div", N(0), N(0))
 InfExpr == Bin("div", N(1), N(0))
 NumOperands == {N(0), N(1), N(2), Dec(1, 1), Neg(N(1)), NaNExpr, InfExpr}
